@@ -67,11 +67,21 @@ UpdRecFinger(r) ==
   ELSE IF r.panic THEN {<<"C11", "method-with-default-panics", r.kind, r.id>>}
   ELSE IF r.res.nil \/ r.res.A # 5 THEN {<<"C11", "mapped-field-not-converted", r.kind, r.id>>}
   ELSE IF r.res.B # 100 THEN {<<"C11", "default-update-replaces-constructor-result", "generated-helper-called", r.id>>} ELSE {}
+\* C11: default FUNC on a map method: the method starts from FUNC's result, so a nil source map returns it (res.A = the value under
+\* FUNC's key "origin", -1 if absent; res.B = the value converted from the source entry "k" of the second input)
+MapFinger(r) ==
+  IF r.gen = "panic" THEN {<<"C13", "generator-panic", r.why, r.id>>}
+  ELSE IF r.gen # "ok" THEN {<<"C11", "default-constructor-program-rejected", "map", r.id>>}
+  ELSE IF ~r.compiles THEN {<<"C01", "does-not-compile", "default-map", r.id>>}
+  ELSE IF r.panic THEN {<<"C11", "method-with-default-panics", "map-method", r.id>>}
+  ELSE (IF r.res.A # 1 THEN {<<"C11", "nil-source-does-not-return-constructor-result", "map-method", r.id>>} ELSE {})
+       \cup (IF r.res.B # 5 THEN {<<"C11", "mapped-field-not-converted", "map-method", r.id>>} ELSE {})
 \* C11, default constructors: res = [nil, A, B] of the returned struct (nil: a nil pointer was returned)
 DMatch(e, got) == e = -1 \/ e = got
 DefFinger(r) ==
   LET p == r.prog e == IF r.srcNil THEN ExpectNil(p) ELSE IF r.zeroB THEN ExpectZeroB(p) ELSE ExpectVal(p) IN
   IF r.gen = "panic" THEN {<<"C13", "generator-panic", r.why, r.id>>}
+  ELSE IF p.noflag THEN (IF r.gen = "ok" THEN {<<"C11", "pointer-to-value-generated-without-the-flag", "method-with-default", r.id>>} ELSE {})
   ELSE IF r.gen # "ok" THEN {<<"C11", "default-constructor-program-rejected", "", r.id>>}
   ELSE IF ~r.compiles THEN {<<"C01", "does-not-compile", "default", r.id>>}
   ELSE IF r.panic THEN {<<"C11", "method-with-default-panics", "", r.id>>}
@@ -87,7 +97,7 @@ Finger18(r) ==
        \cup (IF \E i \in DOMAIN r.decls : r.decls[i] \notin {"struct", "method"} THEN {<<"C18", "extra-top-level-declaration", r.kind, r.id>>} ELSE {})
 Finger0(r) == IF r.kind = "genfile" THEN {}
               ELSE IF r.kind = "update-iface" THEN (IF r.gen = "ok" /\ r.compiles THEN {} ELSE {<<"C10", "update-method-rejected", "interface-member", r.id>>})
-              ELSE IF r.kind = "field" THEN FieldFinger(r) ELSE IF r.kind = "acc" THEN AccFinger(r) ELSE IF r.kind = "fieldx" THEN XFinger(r) ELSE IF r.kind = "default-rebuild" THEN RebuildFinger(r) ELSE IF r.kind = "default-list" THEN ListFinger(r) ELSE IF r.kind \in {"default-update-rec", "default-update-shared"} THEN UpdRecFinger(r) ELSE IF r.kind = "default" THEN DefFinger(r) ELSE UpdFinger(r)
+              ELSE IF r.kind = "field" THEN FieldFinger(r) ELSE IF r.kind = "acc" THEN AccFinger(r) ELSE IF r.kind = "fieldx" THEN XFinger(r) ELSE IF r.kind = "default-rebuild" THEN RebuildFinger(r) ELSE IF r.kind = "default-list" THEN ListFinger(r) ELSE IF r.kind = "default-map" THEN MapFinger(r) ELSE IF r.kind \in {"default-update-rec", "default-update-shared"} THEN UpdRecFinger(r) ELSE IF r.kind = "default" THEN DefFinger(r) ELSE UpdFinger(r)
 VARIABLES l, bad
 Init == l = 1 /\ bad = {}
 Next == /\ l <= Len(Obs)
